@@ -115,7 +115,8 @@ impl Compiler {
         let ir = intermediate::compile(&typechecker, &statements);
         let usage_count = intermediate::count_usages(&ir);
 
-        lua::generate(&ir, &usage_count, lua_file, require);
+        lua::generate(&ir, &usage_count, lua_file, require)
+            .map_err(|e| vec![Error::IOError(std::rc::Rc::new(e))])?;
 
         Ok(())
     }
